@@ -240,6 +240,12 @@ def _always_leaves(stmts: List[ast.stmt]) -> bool:
     return False
 
 
+def first_lambda_ok(lam: ast.Lambda, call: ast.Call) -> bool:
+    """a parameterless lambda called without arguments (the only lambda calls given a stand-in)"""
+    a = lam.args
+    return not (a.posonlyargs or a.args or a.kwonlyargs or a.vararg or a.kwarg or call.args or call.keywords)
+
+
 def bind_args(call: ast.Call, t: FuncInfo, caller: FuncInfo, caller_env):
     """parameter name -> (caller, argument expression, caller env) for the arguments that can be matched syntactically"""
     a = t.node.args
@@ -1347,6 +1353,24 @@ class Builder:
                         for x_ in list(e.args[1:]) + [k_.value for k_ in e.keywords]:
                             self.an.syn_arg_frame[id(x_)] = (f, env)  # the frozen arguments were written where the partial was built
                 return sc.callee(syn)
+            if isinstance(e, ast.Lambda) and not first_lambda_ok(e, call):
+                return None
+            if isinstance(e, ast.Lambda):
+                # `factory()` with factory = `lambda: self._spawner(...)` (written by the caller of this helper, or bound once to a
+                # local): the call runs the lambda's body, in the frame the lambda was written in
+                body = strip_cast(e.body)
+                if isinstance(body, ast.Await) or not isinstance(body, ast.Call):
+                    return None
+                key = (id(call), id(self.env))
+                if key not in self.an.partial_syn:
+                    self.an.partial_syn[key] = body
+                    self.an.partial_frame[key] = (f, env)
+                    self.an.syn_by_call.setdefault(id(call), []).append(body)
+                    self.an.syn_callee[id(body)] = sc.callee(body)
+                    if f is not self.f or env is not self.env:
+                        for x_ in list(body.args) + [k_.value for k_ in body.keywords]:
+                            self.an.syn_arg_frame[id(x_)] = (f, env)
+                return sc.callee(body)
             if not isinstance(e, ast.Name):
                 return None
             if e.id in sc.params and not sc.defs.get(e.id):
